@@ -165,6 +165,36 @@ void epilogue(void) {
 }
 #endif
 
+#if SCEN == 7     /* locked API: cds_wfcq_splice_blocking (takes the SOURCE queue's dequeue lock) vs a second consumer of that source */
+void prologue2(void) { enq(&H, &T, 0); enq(&H, &T, 1); }
+void p1(void) { enq(&H, &T, 2); }
+void c1(void) {
+  enum cds_wfcq_ret r = cds_wfcq_splice_blocking(&H2, &T2, &H, &T);
+  rt_cover(r == CDS_WFCQ_RET_DEST_EMPTY, "locked splice moved nodes");
+  rt_cover(r == CDS_WFCQ_RET_SRC_EMPTY, "locked splice found the source empty");
+  deq_kind(&H2, &T2, 4, 0);
+}
+void c2(void) {
+  /* documented: holding the dequeue lock of a queue excludes every other dequeue/splice-from/iteration on it, so what first() shows
+   * is what the dequeue under the same lock returns */
+  cds_wfcq_dequeue_lock(&H, &T);
+  struct cds_wfcq_node *n = __cds_wfcq_first_blocking(&H, &T);
+  int v = deq_kind(&H, &T, 0, 1);
+  /* (an enqueue may still land between the two calls, so an empty answer of first() promises nothing) */
+  if (n) rt_assert(idx(n) == v, "under the source's dequeue lock, the node first() showed is the one the following dequeue returns (nobody else consumes from that queue)");
+  rt_cover(v >= 0, "second consumer dequeued from the source under its lock");
+  rt_cover(v == H_NONE, "second consumer found the source already spliced out");
+  cds_wfcq_dequeue_unlock(&H, &T);
+  deq_kind(&H, &T, 4, 2);
+}
+void epilogue(void) {
+  __cds_wfcq_splice_blocking(&H2, &T2, &H, &T);
+  rt_assert(cds_wfcq_empty(&H, &T), "source empty after the final splice");
+  drain(&H2, &T2);
+  h_check_basic(); h_check_conservation();      /* two queues: order/emptiness clauses of the single-queue oracle do not apply across them */
+}
+#endif
+
 #if SCEN == 6     /* progress: non-blocking splice / first / next alone */
 void p1(void) { enq(&H, &T, 0); enq(&H, &T, 2); }
 void p2(void) { enq(&H, &T, 1); }
